@@ -14,10 +14,14 @@ def module(outcome):
     f = {
         "main.go": "package main\n\nimport (\n\t\"fmt\"\n\n\t\"%s/dep\"\n)\n\nfunc main() { fmt.Println(dep.Value()) }\n" % MODP,
         "main_test.go": "package main\n\nimport \"testing\"\n\nfunc TestMain1(t *testing.T) { main() }\n",
-        "dep/dep.go": "package dep\n\nfunc Value() int { return helper() + 1 }\n",
+        "dep/dep.go": "package dep\n\nfunc Value() int { return helper() + 1 + second(2) - third() }\n",
+        # several assembly files and headers of different lengths in one package (garble reuses one buffer for all of them)
+        "dep/second_amd64.s": "#include \"textflag.h\"\n#include \"dep2.h\"\n\n// a longer file than its neighbours\nTEXT ·second(SB),NOSPLIT,$0-16\n\tMOVQ x+0(FP), AX\n\tADDQ $DEPTWO, AX\n\tSUBQ $DEPTWO, AX\n\tADDQ $0, AX // inline comment\n\tADDQ $0, AX\n\tMOVQ AX, ret+8(FP)\n\tRET\n",
+        "dep/third_amd64.s": "#include \"textflag.h\"\n\nTEXT ·third(SB),NOSPLIT,$0-8\n\tMOVQ $2, ret+0(FP)\n\tRET\n",
+        "dep/dep2.h": "// second header, longer than the first\n#define DEPTWO 1000\n#define DEPUNUSED 7\n",
         "dep/helper_amd64.s": "#include \"textflag.h\"\n#include \"dep.h\"\n\nTEXT ·helper(SB),NOSPLIT,$0-8\n\tMOVQ $DEPCONST, AX\n\tMOVQ AX, ret+0(FP)\n\tRET\n",
         "dep/dep.h": "#define DEPCONST 41\n",
-        "dep/decl.go": "package dep\n\nfunc helper() int\n",
+        "dep/decl.go": "package dep\n\nfunc helper() int\n\nfunc second(x int) int\n\nfunc third() int\n",
         "data/keep.txt": "user data that must survive\n",
         "trace.txt": "goroutine 1 [running]:\nmain.main()\n\tsome/file.go:3 +0x1d\n",
     }
@@ -92,8 +96,35 @@ if tier != "quick":
     for st in ("foreign-files", "owned-stale", "absent"):
         for oc in ("type-error-main", "compile-error-dep", "unknown-package"):
             cases.append(("dd", "build", oc, st, "warm"))
-# expected -debugdir content: every Go, asm and header file of every package listed by go list -deps
-expected_dd = None
+# garble rewrites assembly and its headers line by line (names next to a middle dot are replaced, inline comments dropped, #include of a
+# local header redirected): a garbled .s/.h file must be the line-by-line image of the source file of the same name, in every package
+import re
+_rx_asmname = re.compile(r"[\w\u2215./]*\u00b7\w*")
+def _asm_norm(line, is_header):
+    if not is_header:
+        code, sep, comment = line.partition("//")
+        if sep and code == "": return "//" + comment
+        line = code
+        if line.startswith("#include"): return "#include"
+    return _rx_asmname.sub("\u00b7N", line)
+def check_asm_tree(real):
+    problems = []; n = 0
+    groot = os.path.join(real, "garbled")
+    for r, _, fs in os.walk(groot):
+        for f in fs:
+            if not f.endswith((".s", ".h")): continue
+            rel = os.path.relpath(os.path.join(r, f), groot)
+            sp = os.path.join(real, "source", rel)
+            if f.startswith("garbled_") or not os.path.exists(sp): continue
+            n += 1
+            gl = read(os.path.join(r, f)).split("\n"); sl = read(sp).split("\n")
+            hdr = f.endswith(".h")
+            if len(gl) != len(sl):
+                problems.append("%s: %d lines, its source has %d" % (rel, len(gl) - 1, len(sl) - 1)); continue
+            for i, (a, b) in enumerate(zip(gl, sl)):
+                if _asm_norm(a, hdr).rstrip() != _asm_norm(b, hdr).rstrip():
+                    problems.append("%s:%d: %r is not the image of %r" % (rel, i + 1, a[:80], b[:80])); break
+    return problems, n
 def run_case(ci):
     kind, cmd, oc, ddstate, cache = cases[ci]
     root = os.path.join(g.root, "case%d" % ci)
@@ -150,6 +181,11 @@ def run_case(ci):
             for rep in json.loads(pn.stdout):
                 for pr in rep["problems"] or []:
                     v.append(("debugdir-garbled-content", "%s: %s: %s" % (label, rep["import_path"], pr)))
+        asm_problems, asm_n = check_asm_tree(real)
+        for pr in asm_problems[:3]:
+            v.append(("debugdir-garbled-asm-content", "%s: %s (%d of %d assembly/header files differ)" % (label, pr, len(asm_problems), asm_n)))
+        if asm_n < 20:
+            v.append(("debugdir-garbled-asm-missing", "%s: only %d assembly/header files could be compared" % (label, asm_n)))
         if any("stale" in f for f in ddfiles):
             v.append(("debugdir-stale-files:" + ddstate, "%s: stale files survive in an owned debugdir: %s" % (label, [f for f in ddfiles if "stale" in f])))
     shutil.rmtree(root, ignore_errors=True)
@@ -171,7 +207,7 @@ if dd_sets:
             k = cases[ci]
             R.violation("debugdir-incomplete:%s:%s" % (k[3], k[4]), "debugdir state %s with %s caches holds %d files, another run of the same build holds %d; missing e.g. %s" % (
                 k[3], k[4], len(fs), len(ref), sorted(ref - set(fs))[:4]))
-    need = ["source/%s/main.go" % MODP, "source/%s/dep/dep.go" % MODP, "source/%s/dep/decl.go" % MODP, "source/%s/dep/helper_amd64.s" % MODP, "source/runtime/proc.go", "source/fmt/print.go"]
+    need = ["source/%s/main.go" % MODP, "source/%s/dep/dep.go" % MODP, "source/%s/dep/decl.go" % MODP, "source/%s/dep/helper_amd64.s" % MODP, "source/%s/dep/second_amd64.s" % MODP, "source/%s/dep/dep2.h" % MODP, "garbled/%s/dep/third_amd64.s" % MODP, "source/runtime/proc.go", "source/fmt/print.go"]
     for n in need:
         if n not in ref:
             R.violation("debugdir-missing-source", "the owned debugdir lacks %s" % n)
@@ -185,7 +221,8 @@ R.finish({
     "rule": "commands {build, build -o, run, test, reverse, map} x outcomes {success, unknown package, type error in main, compile error in a dependency, link error, bad go flag, garble flag after the command} "
             "and build x -debugdir target states {absent, empty, owned with stale files, foreign files, foreign sub-directories only, symlink to owned / foreign, regular file, absent parent} x {warm, cold GARBLE_CACHE}; "
             "oracle: recursive snapshot (names, modes, contents, link targets) of the source tree before = after minus the requested output, private TMPDIR empty afterwards, foreign targets byte-identical and refused, "
-            "owned targets hold one identical complete file set in every run",
+            "owned targets hold one identical complete file set in every run; garbled Go files are the obfuscated form of the same-named source file (declaration skeleton), "
+            "garbled assembly and header files of every package (std included) are the line-by-line image of the same-named source file",
     "samples": [list(c) for c in cases[:3] + cases[-2:]],
     "debugdir_file_sets_compared": len(dd_sets), "files_in_complete_debugdir": len(dd_sets[max(dd_sets, key=lambda c: len(dd_sets[c]))]) if dd_sets else 0,
 }, assumptions=["TMPDIR is private to each run, so leftovers are attributable"], exhaustive=True)
